@@ -282,14 +282,19 @@ def expectMap (P : Params) (cfg : Cfg) (s : Src) (l : Leaf) (vt : Ty) (isPtr : B
       errs := (if tooMany then [.mapSize] else []) ++ (if badKey || ds.any (·.2.refusable) then [.conv] else []) }
   | _ => if src.isEmpty && !badKey then { oks := [none], errs := [] } else { oks := [], errs := [.conv] }
 
+mutual
 /-- follow a path of field indices through structs and pointers (`none`: a nil pointer on the way) -/
 def valAt : Val → List Nat → Option Val
   | v, [] => some v
-  | .struct vs, i :: rest => match vs[i]? with
-    | some x => valAt x rest
-    | none => none
-  | .ptr v, p => valAt v p
-  | _, _ => none
+  | .struct vs, i :: rest => valAtFs vs i rest
+  | .ptr v, i :: rest => valAt v (i :: rest)
+  | _, _ :: _ => none
+/-- … field `i` of the field list, then the rest of the path -/
+def valAtFs : List Val → Nat → List Nat → Option Val
+  | [], _, _ => none
+  | x :: _, 0, rest => valAt x rest
+  | _ :: xs, i + 1, rest => valAtFs xs i rest
+end
 
 /-- nil and empty are the same map; a nil pointer to a map and a pointer to an empty map likewise -/
 def normLeaf : Val → Val
